@@ -457,10 +457,10 @@ def run(ctx, pid):
     hists = corpus_histories(pid)
     ncorpus = len(hists)
     n_struct, n_mal = (170, 40) if ctx.quick else (6000, 1200)
-    hists += [gen_structured(r) for _ in range(n_struct)]
+    hists += [gen_structured(r, with_ledger=(i % 6 == 5)) for i in range(n_struct)]
     hists += [gen_malformed(r) for _ in range(n_mal)]
     if not ctx.quick:
-        hists += [gen_structured(r, big=True) for _ in range(1500)]
+        hists += [gen_structured(r, big=True, with_ledger=(i % 6 == 5)) for i in range(1500)]
         for L, batch, timed in ((4, 2, 0), (5, 2, 0), (4, 1, 1)):
             for seq in gen_exhaustive(L):
                 hists.append(concretise_small(seq, batch, timed))
@@ -514,6 +514,14 @@ def run(ctx, pid):
         else:
             ctx.broken("correspondence:judge_for(%s)" % pid, "first differing case: " + json.dumps(rep)[:1500])
             ctx.extra.setdefault("mismatch_replays", []).append(rep)
+    ctx.assumptions = [
+        "transaction hash (SHA-256 of the marshalled fields) injective: the model identifies a hash with the transaction tuple",
+        "all pool calls come from one goroutine (the node loop); the five goroutines inside processCommitTransactions / "
+        "RemoveAliveTimeoutTxs touch disjoint structures and are modelled sequentially; racy readers (IsPoolFull, GetTransaction from API goroutines) are not represented",
+        "theorems: the ledger oracle does not move under a pool between restarts (static_op); a moving oracle is the open finding C18-stale-commit-cache and is part of the generated histories",
+        "nonces, clocks, ids below 2^62 / clocks below 2^30 s (uint64 wrap-around of nonce+1 is outside the model; such histories are reported as outside the domain, not as passing)",
+        "rebroadcast clock (ttlIndex / GetTimeoutTransactions) not modelled: no other operation reads it",
+    ]
     ctx.extra["distribution"] = dist
     ctx.extra["corpus_cases"] = ncorpus
     ctx.extra["model_cfg_current"] = cfg_term
